@@ -1,5 +1,6 @@
 import Norad.Lemmas.C18SpecRead
 import Norad.Lemmas.C18Codec
+import Norad.Lemmas.C18CodecFinal
 import Norad.Lemmas.C18Escape
 import Norad.Model.DSTables
 import Norad.Generated.DsConsts
@@ -213,9 +214,48 @@ theorem date_text_roundtrip (t : Stamp) (hy : t.year < 10000) (hm : t.month < 10
 theorem date_codec_roundtrip_of_calendar (H : CalendarInverse) (d : Date) (s : String)
     (h : rfc3339Show d = some s) : rfc3339Read s = some d := rfc3339_roundtrip_of_calendar H d s h
 
-/-- with it, the codec hypothesis holds for real integers, real base64 and real dates; the float component
-    (`f32`/`f64` shortest-round-trip `Display`) is the only stand-in left -/
-theorem codec_laws_real_dates (H : CalendarInverse) : CodecLaws realDateCodec := codecLaws_realDateCodec H
+/-- **calendar_inverse**: the former hypothesis, proved for every day number of years 0000–9999 (the
+    conversion itself for ALL day numbers): `days_from_civil (civil_from_days z) = z`, year in 0..9999, month
+    in 1..12, day in 1..31.  Proof: inside a 400-year era the conversion depends only on the day of the era;
+    ONE table fact — the year-of-era formula puts each of the 146 097 days of an era into its year — is
+    settled by kernel evaluation over the complete era (`decide +kernel`, four chunks, no `native_decide`);
+    month/day inside a year, the composition and the lift to every era are structural (`omega`). -/
+theorem calendar_inverse : CalendarInverse := calendarInverse
+
+/-- **calendar_inverse_converse**: `civil_from_days (days_from_civil y m d) = (y, m, d)` for every valid
+    civil date of every year (Gregorian leap rule) -/
+theorem calendar_inverse_converse (y : Int) (m d : Nat) (hm1 : 1 ≤ m) (hm : m ≤ 12) (hd1 : 1 ≤ d)
+    (hd : d ≤ daysInMonth y m) : civilFromDays (daysFromCivil y m d) = (y, m, d) :=
+  civil_of_days_of_civil y m d hm1 hm hd1 hd
+
+/-- **date_codec_roundtrip**: unconditional — every date `plist::Date::to_xml_format` can print (as
+    modelled by `rfc3339Show`, tied to the crate on every date of every run) is read back by `rfc3339Read` -/
+theorem date_codec_roundtrip (d : Date) (s : String) (h : rfc3339Show d = some s) : rfc3339Read s = some d :=
+  rfc3339_roundtrip_of_calendar calendarInverse d s h
+
+/-- the codec hypothesis holds, with no hypothesis left, for real integers, real base64 and real dates -/
+theorem codec_laws_real_dates : CodecLaws realDateCodec := codecLaws_realDateCodec'
+
+/-! ### floats on the simple fragment -/
+
+/-- **codec_laws_simple_floats**: `CodecLaws` for the codec whose `f32`/`f64` `Display` is the exact decimal
+    on the simple fragment (`±N/2^j`: all integers below 2^24 / 2^53, and dyadics with `N` odd and
+    `N·5^(j-1) ≤ 2^23 / 2^52`) and whose `FromStr` reads a decimal that denotes such a value exactly; real
+    integers, base64 and dates.  Outside the fragment a stand-in is printed: there the general
+    shortest-round-trip law REMAINS the named hypothesis (`CodecLaws.f32_rt`/`f64_rt` of the codec of a run),
+    checked by the driver on every string. -/
+theorem codec_laws_simple_floats : CodecLaws simpleFloatCodec := codecLaws_simpleFloatCodec
+
+/-- what that means for one simple value: the exact decimal is printed and read back as the same bits -/
+theorem simple_float_exact (f : FloatFmt) (bits : Nat) (neg : Bool) (N j : Nat)
+    (h : simpleOf f bits = some (neg, N, j)) :
+    showFloat f bits = showDyadic neg N j ∧ parseDec (showDyadic neg N j) = some (neg, N * 5 ^ j, j) ∧
+    readFloat f (showFloat f bits) = some bits := by
+  refine ⟨by simp [showFloat, h], parseDec_showDyadic neg N j, readFloat_showFloat f bits⟩
+
+/-- every document theorem instantiated with that codec: no hypothesis about the codec is left -/
+theorem ds_roundtrip_simple_floats (d : Doc) (h : WellFormed simpleFloatCodec d = true) :
+    saveLoad simpleFloatCodec d = .ok (some d) := ds_roundtrip codecLaws_simpleFloatCodec d h
 
 /-- spot checks of the calendar hypothesis at the ends of the range and at the plist and Unix epochs -/
 example : civilFromDays (-719528) = (0, 1, 1) ∧ daysFromCivil 0 1 1 = -719528 ∧
